@@ -394,6 +394,9 @@ def _asm_far(theta, phi, amn, lmax):
     """
     asm = np.roll(uts_scsmfo.asm(amn, lmax, theta, phi),
                   -1).reshape((2,2)) * -0.5 #correction factor
+    # SCSMFO's perpendicular unit vector points opposite to the one of
+    # Bohren & Huffman used by HoloPy: S3 and S4 change sign
+    asm = asm * np.array([[1, -1], [-1, 1]])
     return asm
 
 def _integrate4pi(integrand):
